@@ -104,20 +104,20 @@ CHECKS = {
             '(pages merged by the code through its title-chain dictionaries) are checked by the oracle only; '
             'matplotlib stubbed; toctree resolution as Sphinx (relative to the listing page).',
             '5 (C20)'),
-    'C15': ('Lean 4 proof: name-keyed caches that remember the request: invariant (every cached task records the '
-            'request it was generated from; ids fresh; names immutable) preserved along every history; identical '
-            'requests hit the cache, requests with a different signature get ValueError or a new task; worklist '
+    'C15': ('Lean 4 proof: caches that remember the request of every generated task: invariant (every cached task records '
+            'the request it was generated from; ids fresh; names immutable; cache append-only) preserved along every '
+            'history; identical requests hit the cache, a different request always gets a task of its own; worklist '
             'closure nodup/sound/complete; unique-name check <=> Nodup + differential correspondence through '
             'Use/UseRun/RunTaskFactory with behaviour probes (every generated task is executed)',
             'For every history of Use.get_task / RunTaskFactory.make / new factories / base tasks (history_good): '
-            'task_runs_its_own_request (the task returned runs the function on the injected names/keys of its own '
-            'request), same_request_same_task (in any later state), different_request_not_shared (two calls '
-            'returning the same task have equal signatures), make_runs_its_own_request; close_nodup / close_sound / '
+            'task_runs_its_own_request (the task returned records exactly its own request), same_request_same_task '
+            '(in any later state), different_request_not_shared (two calls returning the same task made the same '
+            'request), make_runs_its_own_request; close_nodup / close_sound / '
             'close_complete for close_dependency_graph and duplicate_names_rejected for check_unique_task_names; '
             'c15_pinned_refuted keeps the pinned name-only cache (A17) refuted. Tied to the code by generated call '
             'histories whose returned tasks are compared by identity class and executed on a prepared environment.',
-            'Trusted: Lean kernel + standard axioms; det_hash injective; injected tasks count by name (injection reads '
-            'env[task.name]; same-named tasks cannot coexist in a job); functools.partial wrappers not generated '
+            'Trusted: Lean kernel + standard axioms; det_hash injective; tasks and functions compared by identity; '
+            'functools.partial wrappers not generated '
             '(rejected by Use: no __name__); UseRun modelled as make + one get_task per post-processing function.',
             '5 (C15)'),
 }
